@@ -169,8 +169,8 @@ Definition op_def (g : bool) (ln dln eln : nat) (name : string) (is_async : bool
     let fo := leaf (mkInfo KFun (def_first_line ln dln ds) eln (negb g) labels doc "") in
     let acc := base_property (fmembers f) name ds in
     if def_is_overload ds then
-      (* self.current.overloads[name].append(...): Function.overloads is None *)
-      (f, match fkind f with InInit => Some "TypeError" | _ => None end)
+      (* only modules and classes keep the overload buffer (C02); inside an __init__ the overload is dropped *)
+      (f, None)
     else match acc with
     | Some fn => (set_members f (add_label name (if String.eqb fn "setter" then "writable" else "deletable") (fmembers f)), None)
     | None => (set_members f (assign name fo (fmembers f)), None)
@@ -196,7 +196,8 @@ Definition attr_labels (k : skind) (has_value classvar : bool) : list string :=
   | InInit => ["instance-attribute"]
   end.
 
-(* the loop `for name in names:` of handle_attribute on the receiving frame [f]; labels and docstring are loop-carried *)
+(* the loop `for name in names:` of handle_attribute on the receiving frame [f]; what is forwarded from an earlier
+   definition (labels, docstring) concerns that name only *)
 Fixpoint attr_loop (cond : bool) (g : bool) (ln eln : nat) (all_items : list string) (pfun : bool)
          (names : list string) (labels : list string) (doc : option nat) (f : frame) : frame * list event :=
   match names with
@@ -213,7 +214,7 @@ Fixpoint attr_loop (cond : bool) (g : bool) (ln eln : nat) (all_items : list str
           let doc' := if fwd then match doc with Some d => Some d | None => idoc (oinfo ex) end else doc in
           let f1 := set_members f (assign n (leaf (mkInfo KAttr ln eln (negb g) labels' doc' "")) (fmembers f)) in
           let f2 := if String.eqb n "__all__" && items_ok all_items then set_exports f1 (Some all_items) else f1 in
-          let '(f3, evs) := attr_loop cond g ln eln all_items pfun r labels' doc' f2 in
+          let '(f3, evs) := attr_loop cond g ln eln all_items pfun r labels doc f2 in
           (f3, EvInst KAttr n ln (fpath f) pfun :: evs)
       | None =>
           let f1 := set_members f (assign n (leaf (mkInfo KAttr ln eln (negb g) labels doc "")) (fmembers f)) in
@@ -286,7 +287,8 @@ Definition op_augall (items : list string) (f : frame) : frame :=
   end.
 
 Definition head_doc (body : list stmt) : option nat := match body with SDoc ln _ :: _ => Some ln | _ => None end.
-(* ast_next(node) when it is a string expression statement: the next sibling in the parent's child sequence *)
+(* the attribute docstring: the next statement of the same block when it is a string expression statement
+   ([follow] is what comes after the block: always None, a following else/finally block does not count) *)
 Definition next_doc (rest : list stmt) (follow : option nat) : option nat :=
   match rest with [] => follow | SDoc ln _ :: _ => Some ln | _ :: _ => None end.
 
@@ -377,7 +379,7 @@ Fixpoint visit_stmt (pk : pkind) (nd : option nat) (s : stmt) (st : vstate) {str
   | SIf tc body orelse =>
       let prev := guarded st in
       let st1 := if is_level pk && tc then set_guard st true else st in
-      let st2 := visit_list PIf None (head_doc orelse) body st1 in
+      let st2 := visit_list PIf None None body st1 in
       let st3 := visit_list PIf (Some prev) None orelse st2 in
       set_guard st3 prev
   | SBlock children => visit_list POther None None children st
@@ -462,7 +464,7 @@ Fixpoint sem_stmt (g : bool) (pk : pkind) (nd : option nat) (s : stmt) (own up :
   | SImport ln eln names => let '(own', evs) := op_import g ln eln names own in mkL own' up evs None
   | SImportFrom ln eln names => let '(own', evs) := op_importfrom g ln eln names own in mkL own' up evs None
   | SIf tc body orelse =>
-      let a := sem_list (g || (is_level pk && tc)) PIf (head_doc orelse) body own up in
+      let a := sem_list (g || (is_level pk && tc)) PIf None body own up in
       let b := sem_list g PIf None orelse (l_own a) (l_up a) in
       mkL (l_own b) (l_up b) (l_events a ++ l_events b) (first_err (l_err a) (l_err b))
   | SBlock children => sem_list g POther None children own up
@@ -583,25 +585,6 @@ Fixpoint first_names (seen : list string) (bs : list binding) : list string :=
 Definition okind_of_bkind (k : bkind) : okind :=
   match k with BFun => KFun | BCls => KCls | BProp => KAttr | BAttr => KAttr | BAlias => KAlias end.
 
-(* the known gap of totality: an @overload definition directly in the body of a class's __init__ *)
-Fixpoint gap_overload_in_init (k : skind) (s : stmt) {struct s} : bool :=
-  let gl := fix gl (k : skind) (l : list stmt) {struct l} : bool :=
-              match l with [] => false | x :: r => gap_overload_in_init k x || gl k r end in
-  match s with
-  | SDef _ _ _ name is_async ds body =>
-      (match k with InInit => negb (def_is_property is_async ds) && def_is_overload ds | _ => false end)
-      || (match k with
-          | InClass => if String.eqb name "__init__" && negb (def_is_property is_async ds) then gl InInit body else false
-          | _ => false end)
-  | SCls _ _ _ _ _ body => gl InClass body
-  | SIf _ body orelse => gl k body || gl k orelse
-  | SBlock ch => gl k ch
-  | SSub _ body => gl k body
-  | _ => false
-  end.
-Fixpoint gap_overload_in_init_list (k : skind) (l : list stmt) : bool :=
-  match l with [] => false | x :: r => gap_overload_in_init k x || gap_overload_in_init_list k r end.
-
 (* accessor decorators anywhere among the definitions a level visits (C02's subject) *)
 Definition is_accessor (d : deco) : bool := match d with DAccessor _ _ => true | _ => false end.
 Fixpoint has_accessor (s : stmt) {struct s} : bool :=
@@ -674,7 +657,6 @@ Definition doc_is_public (i : vin) : bool :=
 (* known gaps of the visibility table *)
 Definition gap_empty_all (i : vin) : bool :=          (* __all__ = []: declared but empty is treated as undeclared by is_public *)
   v_parent i && v_pmod i && match v_exports i with Some (false, _) => true | _ => false end.
-Definition gap_no_parent (i : vin) : bool := negb (v_parent i).   (* is_exported / is_wildcard_exposed py_raise on a root object *)
 
 (* ================= s-expression interface ================= *)
 Definition dec_deco (s : sexp) : option deco :=
@@ -808,14 +790,14 @@ Definition run_C01 (s : sexp) : sexp :=
   | SList [SStr "spec"; SStr mname; body] =>
       match dec_body body with Some b => enc_result (spec_module mname b) | None => bad_input end
   | SList [SStr "bindings"; SStr mname; body] =>
-      (* declarative view of the module level: bindings, first-binding order, survivor per name, gap flags *)
+      (* declarative view of the module level: bindings, first-binding order, survivor per name, accessor flag *)
       match dec_body body with
       | Some b =>
           let bs := level_bindings_list InModule mname false PScope b in
           let names := first_names [] bs in
           SList [SList (map enc_binding bs); enc_strs names;
                  SList (map (fun n => of_opt enc_binding (survivor n None bs)) names);
-                 of_bool (gap_overload_in_init_list InModule b); of_bool (has_accessor_list b)]
+                 of_bool (has_accessor_list b)]
       | None => bad_input end
   | SList [SStr "vis"; v] =>
       match dec_vin v with
@@ -823,7 +805,7 @@ Definition run_C01 (s : sexp) : sexp :=
                                              is_wildcard_exposed i; is_public i]);
                          SList (map of_bool [doc_is_special i; doc_is_private i; doc_is_class_private i; doc_is_imported i;
                                              doc_is_exported i; doc_is_wildcard_exposed i; doc_is_public i]);
-                         of_bool (vin_consistent i); of_bool (gap_empty_all i); of_bool (gap_no_parent i)]
+                         of_bool (vin_consistent i); of_bool (gap_empty_all i)]
       | None => bad_input end
   | SList [SStr "bracket"; evs] =>
       (* the bracket checker of theorem C01_events_well_bracketed applied to a trace recorded from the implementation *)
